@@ -91,6 +91,8 @@ func genULHistory(r *kernel.Rand, maxOps int) map[string]interface{} {
 			ops = append(ops, map[string]interface{}{"op": "plain", "sht": 0, "msg": genMsg(r, ulKinds)})
 		case x == 2:
 			ops = append(ops, map[string]interface{}{"op": "rekey", "kenc": hex.EncodeToString(r.Bytes(16)), "kint": hex.EncodeToString(r.Bytes(16))})
+		case x == 3:
+			ops = append(ops, map[string]interface{}{"op": "bad", "sht": r.Pick(1, 2, 3, 4), "which": r.Intn(5)})
 		default:
 			ops = append(ops, map[string]interface{}{"op": "send", "sht": r.Pick(1, 2, 2, 2, 3, 4), "msg": genMsg(r, ulKinds)})
 		}
